@@ -895,3 +895,104 @@ equivalent("c13-eq-restart-order", "C13", (E, """        for input_variable in s
         for input_variable in self.input_variables:
             input_variable.value = nan
 """))
+
+# ------------------------------------------------------------------------------------------ C02 / C03
+mutant("c02-regress-uncoerced-defuzzify", "C02", (V, "        value = scalar(self.defuzzifier.defuzzify(self.fuzzy, self.minimum, self.maximum))", "        value = self.defuzzifier.defuzzify(self.fuzzy, self.minimum, self.maximum)"), "V2/OutputVariable.defuzzify")
+mutant("c02-hedge-python-if", ["C02"], (H, "        y = np.where(x <= 0.5, 2 * x**2, 1 - 2 * (1 - x) ** 2)", "        y = 2 * x**2 if x <= 0.5 else 1 - 2 * (1 - x) ** 2"), "V1/Extremely.hedge")
+mutant("c02-norm-builtin-min", "C02", (N, """        a = scalar(a)
+        b = scalar(b)
+        return np.minimum(a, b)
+
+
+class NilpotentMinimum""", """        a = scalar(a)
+        b = scalar(b)
+        return min(a, b)
+
+
+class NilpotentMinimum"""), "V1/Minimum.compute")
+mutant("c02-term-math-exp", ["C02", "C03"], [(T, "import enum\nimport re\n", "import enum\nimport math\nimport re\n"), (T, "            * np.exp(-np.square(x - m) / (2.0 * std**2))", "            * math.exp(-np.square(x - m) / (2.0 * std**2))")], "Gaussian.membership")
+mutant("c02-defuzzifier-float", "C02", (D, "        z = ((x * y).sum(axis=1) / y.sum(axis=1)).squeeze()", "        z = float((x * y).sum(axis=1) / y.sum(axis=1))"), "V1/Centroid.defuzzify")
+mutant("c02-first-assert-removed", ["C02", "C08"], (A, """                activation_degree = rule.activate_with(conjunction, disjunction)
+                self.assert_is_not_vector(activation_degree)
+                if (
+                    activated < self.rules
+                    and activation_degree > 0.0
+                    and activation_degree >= self.threshold
+                ):
+                    rule.trigger(implication)
+                    activated += 1
+
+
+class Last""", """                activation_degree = rule.activate_with(conjunction, disjunction)
+                if (
+                    activated < self.rules
+                    and activation_degree > 0.0
+                    and activation_degree >= self.threshold
+                ):
+                    rule.trigger(implication)
+                    activated += 1
+
+
+class Last"""), "First.activate")
+mutant("c02-fill-forward-not-carried", ["C02", "C12"], (V, """                    else:
+                        previous_value = value_i  # type: ignore
+""", ""), "OutputVariable.defuzzify")
+mutant("c02-input-column-zero", "C02", (E, "            v.value = values[:, i]", "            v.value = values[:, 0]"), "V3/Engine.input_values.setter/columns")
+mutant("c02-input-3d-accepted", "C02", (E, """        elif values.ndim == 2:
+            pass
+        else:
+            raise ValueError(""", """        elif values.ndim >= 2:
+            pass
+        else:
+            raise ValueError("""), "V3/Engine.input_values.setter/dimensions")
+mutant("c02-trigger-truth-on-degree", "C02", (R, "            self.triggered = array(self.activation_degree > 0.0)", "            self.triggered = array(True if self.activation_degree > 0.0 else False)"), "V1/Rule.trigger")
+mutant("c02-aggregated-early-exit", "C02", (T, """        y = scalar(0.0)
+        for term in self.terms:
+            y = self.aggregation.compute(y, term.membership(x))  # type: ignore
+        return y""", """        y = scalar(0.0)
+        for term in self.terms:
+            y = self.aggregation.compute(y, term.membership(x))  # type: ignore
+            if y >= 1.0:
+                break
+        return y"""), "V1/Aggregated.membership")
+mutant("c03-drop-height", "C03", (T, """        y = (
+            self.height
+            * np.where(np.isnan(x), np.nan, 1.0)
+            * np.where(
+                np.isfinite(x) & within,""", """        y = (
+            1.0
+            * np.where(np.isnan(x), np.nan, 1.0)
+            * np.where(
+                np.isfinite(x) & within,"""), "D1/Cosine.membership/height")
+mutant("c03-rectangle-no-nan-mask", "C03", (T, "        y = self.height * np.where(np.isnan(x), np.nan, 1.0) * ((s <= x) & (x <= e))", "        y = self.height * ((s <= x) & (x <= e))"), "A1/Rectangle.membership")
+mutant("c03-trapezoid-reads-top-left-twice", "C03", (T, """        b = self.top_left
+        c = self.top_right
+        d = self.bottom_right
+        y = (""", """        b = self.top_left
+        c = self.top_left
+        d = self.bottom_right
+        y = ("""), "D2/Trapezoid.membership/top_right")
+mutant("c03-ramp-not-monotonic", ["C03", "C11"], (T, """        return True
+
+    def tsukamoto(self, y: Scalar) -> Scalar:
+        r\"\"\"Compute the tsukamoto value of the monotonic term for activation degree $y$.
+
+        Note: Equation
+            $y=\\begin{cases}""", """        return False
+
+    def tsukamoto(self, y: Scalar) -> Scalar:
+        r\"\"\"Compute the tsukamoto value of the monotonic term for activation degree $y$.
+
+        Note: Equation
+            $y=\\begin{cases}"""), "M1/") if False else None
+mutant("c03-binary-no-nan-mask", "C03", (T, "        y = self.height * np.where(np.isnan(x), np.nan, 1.0) * np.where(right | left, 1.0, 0.0)", "        y = self.height * np.where(right | left, 1.0, 0.0)"), "A1/Binary.membership")
+mutant("c03-zshape-no-nan-mask", "C03", (T, "        y = self.height * np.where(np.isnan(x), np.nan, 1.0) * z_shape", "        y = self.height * z_shape"), "A1/ZShape.membership")
+equivalent("c03-eq-gaussian-redundant-mask", "C03", (T, """        y = (
+            self.height
+            * np.where(np.isnan(x), np.nan, 1.0)
+            * np.exp(-np.square(x - m) / (2.0 * std**2))
+        )""", """        y = (
+            self.height
+            * np.exp(-np.square(x - m) / (2.0 * std**2))
+        )"""))
+equivalent("c03-eq-spike-redundant-mask", "C03", (T, "        y = self.height * np.where(np.isnan(x), np.nan, 1.0) * np.exp(-np.abs(10.0 / w * (x - c)))", "        y = np.exp(-np.abs(10.0 / w * (x - c))) * self.height"))
